@@ -32,178 +32,7 @@ from lokysa.model import read_sources, AnalysisError  # noqa: E402
 from lokysa.report import Report  # noqa: E402
 
 PROPS = [f"C{i:02d}" for i in range(1, 21)]
-LOG_CALLS = ("mp.util.debug", "util.debug", "mp.util.info", "util.info", "mp.util.sub_debug", "util.sub_debug", "print")
-
-
-def is_log(stmt):
-    return isinstance(stmt, ast.Expr) and isinstance(stmt.value, ast.Call) and ast.unparse(stmt.value.func) in LOG_CALLS
-
-
-def is_doc(stmt):
-    return isinstance(stmt, ast.Expr) and isinstance(stmt.value, ast.Constant) and isinstance(stmt.value.value, str)
-
-
-def bodies(tree):
-    """Yield (owner qualname, list-of-statements) for every statement list inside functions."""
-    def rec(node, q):
-        for fld in ("body", "orelse", "finalbody"):
-            lst = getattr(node, fld, None)
-            if isinstance(lst, list) and lst and isinstance(lst[0], ast.stmt):
-                if q:
-                    yield q, lst
-                for s in lst:
-                    nq = q
-                    if isinstance(s, (ast.FunctionDef, ast.AsyncFunctionDef)):
-                        nq = (q + "." if q else "") + s.name
-                    elif isinstance(s, ast.ClassDef):
-                        nq = (q + "." if q and not q.endswith(">") else "") + s.name
-                        # class bodies are not mutated but their methods are
-                        for x in rec_class(s, nq):
-                            yield x
-                        continue
-                    yield from rec(s, nq)
-        for h in getattr(node, "handlers", []) or []:
-            if q:
-                yield q, h.body
-            for s in h.body:
-                yield from rec(s, q)
-
-    def rec_class(c, q):
-        for s in c.body:
-            if isinstance(s, (ast.FunctionDef, ast.AsyncFunctionDef)):
-                yield from rec(s, q + "." + s.name)
-            elif isinstance(s, ast.ClassDef):
-                yield from rec_class(s, q + "." + s.name)
-    yield from rec(tree, "")
-
-
-def gen_mutants(path, src, ops):
-    """Return list of dicts {id, path, op, func, line, before, after_src}."""
-    tree = ast.parse(src)
-    out = []
-    idx = {}
-    for q, lst in bodies(tree):
-        for i, s in enumerate(lst):
-            idx[id(s)] = (q, lst, i)
-    counter = [0]
-
-    def emit(op, q, node, mutate):
-        """mutate(tree_copy_node_locator) -> applies mutation on a deep copy."""
-        t2 = copy.deepcopy(tree)
-        # locate the same node in the copy by (lineno, col, type) walk order
-        target = None
-        for n in ast.walk(t2):
-            if type(n) is type(node) and getattr(n, "lineno", None) == getattr(node, "lineno", None) \
-                    and getattr(n, "col_offset", None) == getattr(node, "col_offset", None) \
-                    and getattr(n, "end_lineno", None) == getattr(node, "end_lineno", None) \
-                    and getattr(n, "end_col_offset", None) == getattr(node, "end_col_offset", None):
-                target = n
-                break
-        if target is None:
-            return
-        if mutate(t2, target) is False:
-            return
-        ast.fix_missing_locations(t2)
-        try:
-            new_src = ast.unparse(t2) + "\n"
-            compile(new_src, path, "exec")
-        except Exception:
-            return
-        counter[0] += 1
-        out.append({"id": f"{os.path.basename(path)}:{node.lineno}:{op}:{counter[0]}", "path": path, "op": op, "func": q, "line": node.lineno,
-                    "before": ast.unparse(node).split("\n")[0][:110], "src": new_src})
-
-    def parent_list(t2, target):
-        for n in ast.walk(t2):
-            for fld in ("body", "orelse", "finalbody"):
-                lst = getattr(n, fld, None)
-                if isinstance(lst, list):
-                    for i, s in enumerate(lst):
-                        if s is target:
-                            return lst, i
-            for h in getattr(n, "handlers", []) or []:
-                for i, s in enumerate(h.body):
-                    if s is target:
-                        return h.body, i
-        return None, None
-
-    for q, lst in bodies(tree):
-        for i, s in enumerate(lst):
-            if is_doc(s) or is_log(s):
-                continue
-            if "DEL" in ops and isinstance(s, (ast.Expr, ast.Assign, ast.AugAssign, ast.Delete)):
-                def m(t2, tg):
-                    l2, j = parent_list(t2, tg)
-                    if l2 is None:
-                        return False
-                    l2[j] = ast.Pass()
-                emit("DEL", q, s, m)
-            if "NEG" in ops and isinstance(s, (ast.If, ast.While)) and not (isinstance(s.test, ast.Constant)):
-                def m(t2, tg):
-                    tg.test = ast.UnaryOp(op=ast.Not(), operand=tg.test)
-                emit("NEG", q, s, m)
-            if "UNWITH" in ops and isinstance(s, ast.With):
-                def m(t2, tg):
-                    l2, j = parent_list(t2, tg)
-                    if l2 is None:
-                        return False
-                    # keep `as` bindings alive: only unwrap when no optional_vars
-                    if any(it.optional_vars is not None for it in tg.items):
-                        return False
-                    l2[j:j + 1] = tg.body
-                emit("UNWITH", q, s, m)
-            if "NARROW" in ops and isinstance(s, ast.Try) and s.handlers:
-                for hi, h in enumerate(s.handlers):
-                    def m(t2, tg, hi=hi):
-                        hh = tg.handlers[hi]
-                        cur = ast.unparse(hh.type) if hh.type is not None else "bare"
-                        if cur in ("bare", "BaseException"):
-                            hh.type = ast.Name(id="Exception", ctx=ast.Load())
-                        elif cur == "Exception":
-                            hh.type = ast.Name(id="OSError", ctx=ast.Load())
-                        else:
-                            hh.type = ast.Name(id="ZeroDivisionError", ctx=ast.Load())
-                    emit(f"NARROW{hi}", q, s, m)
-            if "UNFINALLY" in ops and isinstance(s, ast.Try) and s.finalbody and not s.handlers:
-                def m(t2, tg):
-                    l2, j = parent_list(t2, tg)
-                    if l2 is None:
-                        return False
-                    l2[j:j + 1] = tg.body + tg.finalbody
-                emit("UNFINALLY", q, s, m)
-            if "SWAP" in ops and i + 1 < len(lst) and isinstance(s, (ast.Expr, ast.Assign, ast.AugAssign)) \
-                    and isinstance(lst[i + 1], (ast.Expr, ast.Assign, ast.AugAssign)) and not is_log(lst[i + 1]):
-                def m(t2, tg):
-                    l2, j = parent_list(t2, tg)
-                    if l2 is None or j + 1 >= len(l2):
-                        return False
-                    l2[j], l2[j + 1] = l2[j + 1], l2[j]
-                emit("SWAP", q, s, m)
-            if "RETNONE" in ops and isinstance(s, ast.Return) and s.value is not None and not isinstance(s.value, ast.Constant):
-                def m(t2, tg):
-                    tg.value = None
-                emit("RETNONE", q, s, m)
-            if "CMP" in ops:
-                for c in ast.walk(s) if isinstance(s, (ast.If, ast.While, ast.Assign, ast.Return, ast.Expr)) else ():
-                    if isinstance(c, ast.Compare) and len(c.ops) == 1 and isinstance(c.ops[0], (ast.Lt, ast.LtE, ast.Gt, ast.GtE)) \
-                            and getattr(c, "lineno", None) is not None:
-                        # only compares belonging to this statement's own header
-                        if isinstance(s, (ast.If, ast.While)) and not any(x is c for x in ast.walk(s.test)):
-                            continue
-
-                        def m(t2, tg):
-                            sw = {ast.Lt: ast.LtE, ast.LtE: ast.Lt, ast.Gt: ast.GtE, ast.GtE: ast.Gt}
-                            tg.ops = [sw[type(tg.ops[0])]()]
-                        emit("CMP", q, c, m)
-            if "BOOL" in ops and isinstance(s, (ast.Expr, ast.Assign, ast.Return)):
-                for c in ast.walk(s):
-                    if isinstance(c, ast.Call):
-                        for k in c.keywords:
-                            if isinstance(k.value, ast.Constant) and isinstance(k.value.value, bool):
-                                def m(t2, tg):
-                                    tg.value = not tg.value
-                                emit("BOOL", q, k.value, m)
-    return out
+from lokysa.selfval.sweep import gen_mutants, bodies, is_log, is_doc, LOG_CALLS  # noqa: E402,F401
 
 
 _BASE = None
